@@ -13,9 +13,9 @@ CHECKS = {
 }
 CHECKS.update({
  # NEW-ENTRIES-HERE
- "C11": (True, "model_checking", "exhaustive enumeration of garbage-collection placements (bounded number of injected collections) over interception points inside decode, callback and encode, with GOGC=off and clobberfree so that collections are owned by the explorer",
-         "GC timing is the nondeterminism here, so the harness owns it: workers run with GOGC=off and GODEBUG=clobberfree=1, an instrumented leaf type registered as a custom codec yields a choice point inside every composite being decoded or encoded, and for each of ~160 composite types (maps/slices/pointers of depth <=2 with probes inside and after) every placement of at most 1 (2 thorough) injected collection+heap churn is executed; retained shallow copies must equal the written values after further collections and the encoded datum must equal the collection-free run. A mis-tracked object fails deterministically instead of 'sometimes after churn'.",
-         "Collections land only at interception points; the window between an internal allocation and its publishing store is unexplored when no leaf call intervenes.", "DESIGN.md §4 C11"),
+ "C11": (True, "model_checking", "exhaustive enumeration of garbage-collection placements (bounded number of injected collections) over interception points generated before every statement of the decode/encode path (build overlay) and inside an instrumented probe codec, with GOGC=off and clobberfree so that collections are owned by the explorer",
+         "GC timing is the nondeterminism here, so the harness owns it: workers run with GOGC=off and GODEBUG=clobberfree=1; the library is rebuilt with a generated overlay that calls a hook before EVERY statement of every function, and an instrumented leaf type registered as a custom codec adds points inside every composite being decoded or encoded. For each of ~160 composite types (maps/slices/pointers of depth <=2 with probes inside and after), in three bank-lifetime variants (banks kept / dropped unclosed / recycled from the pool), every placement of at most 1 (2 thorough) injected collection + heap churn is executed; retained shallow copies must equal the written values after further collections and the encoded datum must equal the collection-free run. A mis-tracked object fails deterministically instead of 'sometimes after churn'.",
+         "Collections are placed between statements, not between the machine instructions of one statement; quick tier uses the first occurrence of each static point in the main variant.", "DESIGN.md §4 C11"),
  "C12": (True, "model_checking", "stateless model checking of the real code under a cooperative scheduler (preemption-bounded exploration of all schedules by prefix replay) with vector-clock happens-before checking of generated access hooks; auxiliary free-running -race pass",
          "The library is rebuilt (go build -overlay) with sync replaced by a scheduler shim and with generated read/write hooks on package-level variables and pointer-receiver objects. Ten three-thread scenarios that are made to collide on the registries, the bank pool, shared codecs and the timezone cache are explored over all schedules with at most 2 (3 thorough) preemptions at synchronisation granularity, and again with every hooked access as a scheduling point; every Pool.Get answer is a choice; executions are independent (registries and caches are reset by generated hooks) and reproducible (a divergence while replaying a prefix is a hard harness error). Each schedule is checked for unordered conflicting accesses, deadlock and result equivalence with a sequential order. The same bodies also run free on 16 goroutines under Go's race detector.",
          "Sequentially consistent interleavings; syntactic instrumentation (errs towards 'read'); -race pass is sampling and auxiliary only.", "DESIGN.md §4 C12"),
@@ -97,7 +97,7 @@ def main():
         "setup_cmd": "./setup.sh",
         "hooks": {
             "guard": "verif",
-            "enable": "no source hooks in /repo: for C10/C12 run.sh runs cmd/ovgen on the current tree (sync import -> zzvsync shim, generated Access hooks) and builds with `go build -tags ovl -overlay <generated overlay.json>`; the harness itself is the module /verif/harness",
+            "enable": "no source hooks in /repo: for C10/C11/C12 run.sh runs cmd/ovgen on the current tree (sync import -> zzvsync shim, generated Access hooks, reset hooks, and for C11 a hook before every statement) and builds with `go build -tags ovl -overlay <generated overlay.json>`; the harness itself is the module /verif/harness",
             "baseline_off_cmd": BASELINE_OFF,
             "source_commits": [],
             "add_only": True,
